@@ -13,6 +13,7 @@ import (
 	"fmt"
 	"math/rand"
 	"os"
+	"sort"
 	"testing"
 )
 
@@ -29,7 +30,19 @@ type fuzzSpec struct {
 	Snapshot  float64  `json:"snapshot"` // weight of snapshot requests
 	Fail      float64  `json:"fail"`     // weight of connection failures
 	MaxCmds   int      `json:"maxCmds"`
+	Fair      bool     `json:"fair"`     // after the random part: heal everything and continue with a fair schedule (C17 b)
+	CrashPts  float64  `json:"crashPts"` // weight of arming a crash point inside a later storage-mutating step
 	Name      string   `json:"name"`
+}
+
+// every storage-mutating hook point of the handlers (value files, log segments, snapshot files)
+var simCrashPoints = []string{"value.renamed", "value.set", "append.truncated", "append.beforeFlush", "append.flushed",
+	"snap.published", "snap.logCleared", "leader.flushed", "snapsink.renamed",
+	"seg.sync.data", "seg.sync.header", "seg.sync.done", "seg.removeGTE.header", "seg.append", "seg.remove.closed", "seg.remove.done",
+	"seg.create.opened", "seg.create.truncated", "seg.create.synced", "log.rollover"}
+
+func choiceKey(s simStep) string {
+	return fmt.Sprintf("%s|%d|%d|%d|%d|%d|%d|%d|%d|%s", s.K, s.N, s.From, s.To, s.I, s.J, s.Peer, s.Term, s.Conn, s.Task)
 }
 
 type fuzzChoice struct {
@@ -69,6 +82,13 @@ func (c *simCluster) fuzzChoices(f *fuzzSpec, rng *rand.Rand, cmds *int, cfgReqs
 		}
 		if f.Crash > 0 {
 			add(f.Crash, simStep{K: "crash", N: id})
+		}
+		if f.CrashPts > 0 && (c.crashAt == nil || (!c.crashFired && c.seq-c.armSeq > 25)) {
+			pt := simCrashPoints[rng.Intn(len(simCrashPoints))]
+			add(f.CrashPts, simStep{K: "crash", N: id, At: &struct {
+				Point string `json:"point"`
+				Hit   int    `json:"hit"`
+			}{pt, 1 + rng.Intn(2)}})
 		}
 		if r.leader != 0 && r.leader != id && n.peers[r.leader] {
 			add(0.2, simStep{K: "disconnected", N: id, Peer: r.leader})
@@ -126,9 +146,10 @@ func (c *simCluster) fuzzChoices(f *fuzzSpec, rng *rand.Rand, cmds *int, cfgReqs
 					}
 				case modePipe:
 					rp := sr.r
-					if out < 3 && (sr.canWrite || rp.nextIndex <= rp.ldrLastIndex || out == 0) && (rp.nextIndex <= rp.ldrLastIndex || rp.node.Voter || sr.canWrite) {
+					cw := sr.canWrite || (c.eager.Poll && len(rp.leaderUpdateCh) > 0)
+					if out < 3 && (cw || rp.nextIndex <= rp.ldrLastIndex || out == 0) && (rp.nextIndex <= rp.ldrLastIndex || rp.node.Voter || cw) {
 						w := 2.0
-						if rp.nextIndex <= rp.ldrLastIndex {
+						if rp.nextIndex <= rp.ldrLastIndex || len(rp.leaderUpdateCh) > 0 {
 							w = 8
 						}
 						add(w, simStep{K: "replSend", I: id, J: j})
@@ -238,6 +259,8 @@ func runFuzz(f fuzzSpec, run int, out *bufio.Writer) (err error) {
 		if len(ch) == 0 {
 			break
 		}
+		// canonical order: Go's map iteration (startElection, leader.init) must not influence which choice a random number selects
+		sort.SliceStable(ch, func(i, j int) bool { return choiceKey(ch[i].s) < choiceKey(ch[j].s) })
 		total := 0.0
 		for _, x := range ch {
 			total += x.w
@@ -260,7 +283,216 @@ func runFuzz(f fuzzSpec, run int, out *bufio.Writer) (err error) {
 		ev := c.doStep(st)
 		c.record(st, ev)
 	}
+	if f.Fair {
+		c.fairContinue(&cmds)
+	}
+	c.finish()
 	return nil
+}
+
+func (c *simCluster) do(st simStep) map[string]interface{} {
+	ev := c.doStep(st)
+	c.record(st, ev)
+	return ev
+}
+
+func upd(id uint64, cmd int) simStep {
+	return simStep{K: "client", N: id, Ops: []struct {
+		Op string `json:"op"`
+		ID int    `json:"id,omitempty"`
+	}{{Op: "update", ID: cmd}}}
+}
+
+// fairContinue: faults stop (every node restarted, no more failures) and every enabled protocol step is taken
+// round-robin; timeouts fire one node at a time, only while nobody leads. The cluster must elect a leader,
+// commit a fresh update and bring every state machine up to date within a bounded number of rounds.
+func (c *simCluster) fairContinue(cmds *int) {
+	c.crashAt, c.crashFired = nil, false
+	for _, id := range c.ids {
+		if n := c.nodes[id]; !n.up && n.stopped == "" {
+			c.do(simStep{K: "restart", N: id})
+		}
+	}
+	submitted, fresh := false, 0
+	converged, rounds := false, 0
+	turn := 0
+	for rounds = 1; rounds <= 60 && !converged; rounds++ {
+		progress := false
+		// everything in flight is delivered
+		for pass := 0; pass < 4; pass++ {
+			for _, rpc := range append([]*simRPC{}, c.rpcs...) {
+				if rpc.phase == 0 {
+					c.do(simStep{K: rpc.kind + "Req", From: rpc.from, To: rpc.to, Term: rpc.term})
+					progress = true
+				} else if rpc.phase == 1 {
+					c.do(simStep{K: rpc.kind + "Resp", From: rpc.to, To: rpc.from, Term: rpc.term})
+					progress = true
+				}
+			}
+			for _, id := range c.ids {
+				n := c.nodes[id]
+				if n.up && n.cur == Candidate && n.cnd.respCh != nil && len(n.cnd.respCh) > 0 {
+					c.do(simStep{K: "voteResp", From: id, To: id, Term: n.r.term})
+					progress = true
+				}
+				switch n.snapPhase {
+				case "start":
+					c.do(simStep{K: "snapGAsk", N: id})
+				case "got", "err":
+					c.do(simStep{K: "snapGStore", N: id})
+				case "stored":
+					c.do(simStep{K: "snapTaken", N: id})
+				}
+			}
+		}
+		var ldr *simNode
+		for _, id := range c.ids {
+			if n := c.nodes[id]; n.up && n.cur == Leader && n.r.state == Leader {
+				ldr = n
+			}
+		}
+		// an update that failed (leadership lost meanwhile) is submitted again: the property asks for a NEW update to commit
+		if submitted && len(c.tasks) > 0 {
+			last := c.tasks[len(c.tasks)-1]
+			select {
+			case <-last.t.Done():
+				if last.t.Err() != nil {
+					submitted = false
+				}
+			default:
+			}
+		}
+		if ldr != nil {
+			if !submitted && ldr.r.commitIndex >= ldr.l.startIndex {
+				*cmds++
+				fresh = *cmds
+				c.do(upd(ldr.id, fresh))
+				submitted = true
+			}
+			for _, j := range sortedIDs(ldr.l.repls) {
+				for k := 0; k < 3; k++ {
+					sr := c.findRepl(ldr.id, j)
+					if sr == nil || !ldr.up || ldr.cur != Leader {
+						break
+					}
+					if sr.conn != nil && sr.conn.peerDead {
+						// the peer process behind this connection died: reads/writes on it fail (connection reset)
+						c.do(simStep{K: "replFail", I: ldr.id, J: j})
+					} else if sr.conn != nil && len(sr.conn.reqs) > 0 {
+						c.do(simStep{K: "appendReq", I: ldr.id, J: j})
+					} else if sr.conn != nil && len(sr.conn.resps) > 0 {
+						c.do(simStep{K: "appendResp", I: ldr.id, J: j})
+					} else if sr.snapBusy == nil {
+						c.do(simStep{K: "replSend", I: ldr.id, J: j})
+					} else {
+						break
+					}
+				}
+			}
+		} else {
+			// nobody leads: one node's election timer fires
+			for k := 0; k < len(c.ids); k++ {
+				id := c.ids[(turn+k)%len(c.ids)]
+				if n := c.nodes[id]; n.up && n.r.timer.active {
+					c.do(simStep{K: "timeout", N: id})
+					turn = (turn + k + 1) % len(c.ids)
+					break
+				}
+			}
+		}
+		_ = progress
+		converged = c.convergedOn(fresh)
+	}
+	c.do(simStep{K: "fairCheck", Arg: map[string]interface{}{"fresh": fresh, "rounds": rounds}})
+}
+
+// convergedOn: one leader, and the fresh update applied on every running member of its configuration
+func (c *simCluster) convergedOn(fresh int) bool {
+	var ldr *simNode
+	for _, id := range c.ids {
+		if n := c.nodes[id]; n.up && n.cur == Leader && n.r.state == Leader {
+			ldr = n
+		}
+	}
+	if ldr == nil || fresh == 0 {
+		return false
+	}
+	for _, id := range c.ids {
+		n := c.nodes[id]
+		if !n.up {
+			continue
+		}
+		if _, member := ldr.r.configs.Latest.Nodes[id]; !member {
+			continue
+		}
+		has := false
+		for _, x := range n.fsm.cmds {
+			if x == fresh {
+				has = true
+			}
+		}
+		if !has {
+			return false
+		}
+	}
+	return true
+}
+
+// stepFairCheck: the verdict of a fair, fault-free continuation (C17): judged on the state the steps produced
+func (c *simCluster) stepFairCheck(s simStep) map[string]interface{} {
+	fresh := 0
+	if v, ok := s.Arg["fresh"]; ok {
+		switch x := v.(type) {
+		case int:
+			fresh = x
+		case float64:
+			fresh = int(x)
+		}
+	}
+	return map[string]interface{}{"kind": "fairCheck", "fresh": fresh, "rounds": s.Arg["rounds"], "converged": c.convergedOn(fresh)}
+}
+
+// finish: every running node is shut down (stateLoop returns: roles released, pending tasks answered with
+// ErrServerClosed); then every submitted task must be complete, exactly once.
+func (c *simCluster) finish() {
+	for _, id := range c.ids {
+		if n := c.nodes[id]; n.up {
+			// Shutdown waits for a snapshot in progress: let it complete first (same order as Raft.release)
+			for k := 0; k < 64 && n.up && n.snapPhase != "idle"; k++ {
+				switch n.snapPhase {
+				case "start":
+					c.do(simStep{K: "snapGAsk", N: id})
+				case "asked":
+					c.do(simStep{K: "fsm", N: id})
+				case "got", "err":
+					c.do(simStep{K: "snapGStore", N: id})
+				case "stored":
+					c.do(simStep{K: "snapTaken", N: id})
+				}
+			}
+		}
+		if n := c.nodes[id]; n.up {
+			c.do(simStep{K: "shutdown", N: id})
+		}
+	}
+	c.do(simStep{K: "final"})
+}
+
+// stepFinal: after every node was shut down, every task an incarnation accepted must be complete
+func (c *simCluster) stepFinal() map[string]interface{} {
+	pending := []interface{}{}
+	for _, st := range c.tasks {
+		select {
+		case <-st.t.Done():
+		default:
+			// a task is owed an answer only by the incarnation that accepted it, and only if that incarnation
+			// stopped in an orderly way (a killed process answers nobody)
+			if n := c.nodes[st.node]; n != nil && n.inc == st.inc && n.died == "" && n.stopped != "" {
+				pending = append(pending, map[string]interface{}{"task": st.id, "op": st.kind, "n": st.node})
+			}
+		}
+	}
+	return map[string]interface{}{"kind": "final", "pending": pending}
 }
 
 func TestVerifFuzz(t *testing.T) {
